@@ -184,3 +184,96 @@ prop("C15", "other",
      "push_tag_len (short / 0x81 / 0x82 with the octets in order and ensure_size covering them); the fixed encodings (ZERO_BER, "
      "NULL_BER, EMPTY_BER, version constants) are minimal TLVs; PDU tag tables of encoder and decoder agree with RFC 3416.",
      [("C15.nowrap", numrules.c15_nowrap), ("C15.len", codec.length_forms), ("C15.pdu", codec.pdu_tags), ("C15.oid", codec.oid_text)])
+
+from .rules import crypto  # noqa: E402
+
+
+def py_version_default(ctx, rep, rule):
+    """Both clients replace the protocol version only when the caller passed none (SnmpVersion.v1 is falsy: 0)."""
+    import ast
+    for mod in py.CLIENTS:
+        f = ctx.py.func("%s:SnmpSession.__init__" % mod)
+        if f is None:
+            rep.missing(rule, mod + ".SnmpSession.__init__")
+            continue
+        asg = f.assigns_to("version")
+        for st, cx in asg:
+            v = ast.unparse(st.value)
+            ok = cx.has("eq(None,version)", True) and v == "SnmpVersion.v2c if user is None else SnmpVersion.v3"
+            rep.check(rule, "%s.__init__|version default" % mod, ok, "autodetected only when version is None",
+                      "the requested version is replaced by `%s` under %s: an explicit SnmpVersion.v1 (value 0) is treated as not given" % (v, cx.conds),
+                      ctx.py.loc(mod, st), obligation=True)
+        ctor = {"SnmpV1ClientSocket": "eq(SnmpVersion.v1,version)", "SnmpV2cClientSocket": "eq(SnmpVersion.v2c,version)", "SnmpV3ClientSocket": "eq(SnmpVersion.v3,version)"}
+        for name, cond in ctor.items():
+            for c, cx, st in f.calls_to(lambda t, name=name: t == name):
+                rep.check(rule, "%s.__init__|%s" % (mod, name), cx.has(cond, True), "built for its own version", "%s is built under %s" % (name, cx.conds), ctx.py.loc(mod, c),
+                          obligation=True)
+                a = [ast.unparse(x) for x in c.args]
+                if name != "SnmpV3ClientSocket":
+                    rep.check(rule, "%s.__init__|%s community" % (mod, name), a[:2] == ["f'{addr}:{port}'", "community"], "address and community", "socket built from %s" % a[:2],
+                              ctx.py.loc(mod, c))
+
+
+prop("C03", "other",
+     "Structural rules (byte-for-byte equality with an independent encoder is NOT decided - see C15): buffers start empty "
+     "(Buffer::default / reset set pos = MAX_SIZE; BufferHandle::drop crosses reset() on every path to pool.push; the pool Vec is "
+     "used only in buf::pool; _send_inner hands the freshly acquired buffer to push_pdu, sends buf.data() of it and only across "
+     "push_pdu's Ok edge; both ciphers reset their private buffer first); operation -> request PDU table (variant, non-repeaters "
+     "0, max-repetitions from the caller, request-id, OIDs pushed in reverse into the back-to-front buffer, NULL values); PDU tag "
+     "tables; credentials of all three push_pdu derive from the same-named session fields; request id masked to 31 bits and drawn "
+     "once per send; length forms; the 39 pymethods bind to the right generic/op; Python: fetch()/bulk rules, version default; no "
+     "undischarged panic site on the send path.",
+     [("C03.fresh", crypto.fresh_buffers), ("C03.priv-fresh", crypto.priv_fresh), ("C03.op", crypto.op_tables), ("C03.pdu", codec.pdu_tags),
+      ("C03.cred", v3.cred), ("C03.priv", v3.priv_choice), ("C03.reqid", c04.single_id), ("C03.len", codec.length_forms), ("C03.sib", crypto.sockets_sibling),
+      ("C03.keys", v3.keys), ("C03.fetch", py.fetch), ("C03.version", py_version_default), ("C03.nopanic", numrules.c03_nopanic)])
+
+prop("C17", "proof",
+     "Abstract interpretation (`num`): the type invariant pos <= MAX_SIZE of Buffer is assumed at every read of pos and proved at "
+     "every exit of every function holding a &mut Buffer and for every Buffer returned by value; every unsafe call's precondition "
+     "(ptr::add, slice::from_raw_parts(_mut), copy_nonoverlapping, ptr::write, assume_init) is an obligation on a pointer value "
+     "that carries its in-bounds extent; push_u8_unchecked requires pos >= 1 at each of its 11 call sites; bounds/overflow sites "
+     "of buf::* and of the whole send path are obligations. Structural: pos/bookmark/data written only in buf::buffer, skip() "
+     "only from the two decrypts (which fill the space before reading), as_slice(n) only from recv_socket with n = recv's result; "
+     "no Result of a push is dropped; send only across push_pdu's Ok edge; OutOfBuffer -> SnmpEncodeError; length-form table.",
+     [("C17.sites", numrules.c17_sites), ("C17.owner", crypto.buffer_owner), ("C17.err", crypto.buffer_err), ("C17.send", crypto.fresh_buffers),
+      ("C17.len", codec.length_forms), ("C17.exc", c07.exc_table), ("C17.priv-fresh", crypto.priv_fresh)])
+
+prop("C09", "other",
+     "HMAC byte equality is NOT decided. Decided: in v3 push_pdu sign runs on every Ok path of an authenticated session with no "
+     "condition other than has_auth(), after msg.push_ber(buf), over buf.data_mut() (the whole message) at buf.get_bookmark(), and "
+     "nothing touches the buffer afterwards; set_bookmark(2) directly follows push_tagged(auth_params) (validator of the audited "
+     "offset obligation); flag_auth / auth_params derive from has_auth() / placeholder(); constants (ipad 0x36, opad 0x5c, block "
+     "64, MAC 12, key size = digest size for both aliases); canonical HMAC shape of DigestAuth::sign (tolerant) and MAC placement "
+     "data[offset..offset+SS] = d2[0..SS]; the two key installers refresh the same fields and sign reads only refreshed state; "
+     "engine id / keys consistency rules of C13.",
+     [("C09.order", crypto.sign_order), ("C09.const", crypto.hmac_consts), ("C09.shape", crypto.hmac_shape), ("C09.flag", v3.cred),
+      ("C09.keys", v3.keys), ("C09.adopt", v3.adopt), ("C09.accept", c04.accept)])
+
+prop("C11", "other",
+     "Ciphertext correctness is NOT decided. Decided: both ciphers reset their private buffer before every use (history "
+     "independence); key / pre-IV / IV / salt layouts against RFC 3414 8.1.1.1 and RFC 3826 3.1.2.1 (DES key = Kul[0..8], pre-IV = "
+     "Kul[8..16], IV = salt xor pre-IV, salt = boots|counter; AES key = Kul[0..16], IV = boots|time|salt64, salt sent = "
+     "priv_params[8..]); decrypt builds its IV from the message's USM boots/time/salt with the same layout; the range encrypted in "
+     "place equals the range returned (b[..padded_len]) and padded_len is proved in bounds (num); push_pdu passes the session's "
+     "scoped PDU, boots and time in this order; the skipped buffer is parsed only after a successful decryption; key localisation "
+     "chain (auth digest, session engine id, own key-type bits).",
+     [("C11.fresh", crypto.priv_fresh), ("C11.layout", crypto.priv_layout), ("C11.args", v3.cred), ("C11.keys", v3.keys), ("C11.choice", v3.priv_choice)])
+
+prop("C12", "other",
+     "Digest equality with RFC 3414 A.2 is NOT decided. Decided: no undischarged panic site from SnmpV3ClientSocket::new, "
+     "set_keys, get_master_key, get_localized_key (empty password, wrong-size keys refused); algorithm-code tables of AuthKey::new "
+     "/ PrivKey::new for all 64 codes and key-type table of as_key_type; Python constants (AUTH_ALG, PRIV_ALG, KEY_LENGTH, KeyType, "
+     "_mask = value << 6, get_*_alg/get_*_key, padding of aligned keys by the privacy key's own type) agree with the Rust side; "
+     "as_password = password_to_master then as_master, as_master = localize then store; canonical shapes: localize hashes key, "
+     "engine id, key; password_to_master feeds exactly MEGABYTE/len whole copies and then password[..MEGABYTE%len]; the privacy key "
+     "is localised with the auth digest, the session engine id and its own key-type bits (new and set_keys).",
+     [("C12.refuse", numrules.c12_refuse), ("C12.dispatch", crypto.key_dispatch), ("C12.ffi", crypto.key_ffi), ("C12.chain", crypto.key_chain),
+      ("C12.keys", v3.keys), ("C12.const", crypto.hmac_consts)])
+
+prop("C14", "other",
+     "Given the rules, uniqueness follows (+1 mod 2^w is injective over fewer than 2^w steps): salt_value is written only at key "
+     "installation (from the RNG) and in encrypt as salt_value.wrapping_add(1); priv_params is written only in encrypt; no exit of "
+     "encrypt lies between copying the salt into the message and advancing the counter; the transmitted parameters are 8 octets "
+     "([u8; 8] / [u8; 16][8..]); flag_priv, the Encrypted/Plaintext choice and the encrypt call are governed by the same "
+     "has_priv() and Encrypted carries encrypt()'s output. NOT decided: absence of plaintext octet runs in the ciphertext.",
+     [("C14.counter", crypto.salt_counter), ("C14.flag", v3.priv_choice), ("C14.cred", v3.cred), ("C14.layout", crypto.priv_layout)])
